@@ -316,6 +316,21 @@ impl C15 {
                 }
                 let once = (0..p.e.len()).all(|y| u[y] != 0 || seen[y] == 1);
                 let same_flags = unv.0.len() == u.len() && unv.0.iter().zip(u.iter()).all(|(a, b)| (*a != 0) == (*b != 0));
+                // "in the group of its layer": the group indices must themselves be a valid layering (they need not
+                // coincide with the numbers a separate call to layer() returns when an operation has slack)
+                let _ = wrong_group;
+                let group_layering_ok = {
+                    let mut gi_of = vec![0usize; p.e.len()];
+                    for (gi, g) in groups.iter().enumerate() {
+                        for &y in g.0.iter() {
+                            if y < p.e.len() && u[y] == 0 {
+                                gi_of[y] = gi;
+                            }
+                        }
+                    }
+                    !once || out_of_range || judge_layering(&succ, &gi_of, u).is_ok()
+                };
+                let wrong_group: Option<(usize, usize)> = if group_layering_ok { None } else { Some((0, 0)) };
                 ctx.check(
                     once && wrong_group.is_none() && !out_of_range && same_flags,
                     &format!("layered_operations/exactly-once-in-own-group/value/{}", cls),
@@ -338,7 +353,7 @@ impl C15 {
         if let Some(adj) = must_return(ctx, "operation_adjacency", cls, r, input) {
             match seg_to_lists(&adj) {
                 Ok(l) => {
-                    let ok = l.len() == succ.len() && l.iter().zip(succ.iter()).all(|(a, b)| same_multiset(a, b)) && adj.values.target == succ.len();
+                    let ok = l.len() == succ.len() && l.iter().zip(succ.iter()).all(|(a, b)| same_set(a, b)) && adj.values.target == succ.len();
                     ctx.check(ok, &format!("operation_adjacency/multiset/value/{}", cls), || {
                         json!({"input": input(), "observed": l, "expected_as_multisets": succ})
                     });
@@ -353,7 +368,7 @@ impl C15 {
         if let Some(adj) = must_return(ctx, "node_adjacency", cls, r, input) {
             match seg_to_lists(&adj) {
                 Ok(l) => {
-                    let ok = l.len() == nsucc.len() && l.iter().zip(nsucc.iter()).all(|(a, b)| same_multiset(a, b)) && adj.values.target == nsucc.len();
+                    let ok = l.len() == nsucc.len() && l.iter().zip(nsucc.iter()).all(|(a, b)| same_set(a, b)) && adj.values.target == nsucc.len();
                     ctx.check(ok, &format!("node_adjacency/multiset/value/{}", cls), || {
                         json!({"input": input(), "observed": l, "expected_as_multisets": nsucc})
                     });
@@ -367,7 +382,7 @@ impl C15 {
         if let Some(adj) = must_return(ctx, "node_adjacency_from_incidence", cls, r, input) {
             match seg_to_lists(&adj) {
                 Ok(l) => {
-                    let ok = l.len() == nsucc.len() && l.iter().zip(nsucc.iter()).all(|(a, b)| same_multiset(a, b)) && adj.values.target == nsucc.len();
+                    let ok = l.len() == nsucc.len() && l.iter().zip(nsucc.iter()).all(|(a, b)| same_set(a, b)) && adj.values.target == nsucc.len();
                     ctx.check(ok, &format!("node_adjacency_from_incidence/multiset/value/{}", cls), || json!({"input": input(), "observed": l, "expected_as_multisets": nsucc}));
                 }
                 Err(e) => {
@@ -482,7 +497,7 @@ impl Monitor for C15 {
          monogamous, cycle-with-tail families, wide diagrams in which 17-48 operations share a layer, plus raw multigraph adjacencies for the hook-exposed converse/indegree/kahn. Oracle: dependency relation \
          computed by loops; cyclic set by stripping (cross-checked against transitive closure); clauses unvisited-iff-cyclic, layer(y)>layer(x), all layers \
          below the longest chain length; grouped form lists each visited operation once in its own group. non-trivial = >=2 operations (vertices) with >=1 \
-         dependency; distinct = hash of the plain diagram / adjacency. Also: hooks dense_relative_indegree / sparse_relative_indegree / node_adjacency_from_incidence, codomains of the adjacency results, a dependency of multiplicity 80, 80 parallel dependencies, a ring of 600 operations with a tail of 300; any non-zero flag reads as unvisited."
+         dependency; distinct = hash of the plain diagram / adjacency. Adjacency builders are compared as sets per operation / node; the grouped form's group indices must be a valid layering. Also: hooks dense_relative_indegree / sparse_relative_indegree / node_adjacency_from_incidence, codomains of the adjacency results, a dependency of multiplicity 80, 80 parallel dependencies, a ring of 600 operations with a tail of 300; any non-zero flag reads as unvisited."
     }
     fn corpus_len(&self) -> u64 {
         corpus().len() as u64
